@@ -135,6 +135,10 @@ func (h *hashRanges) getBottomRange(rng *hashRange, elHash uint64) *hashRange {
 		perRange++
 	}
 	bucket := (elHash - rng.from) / perRange
+	if bucket >= df {
+		// the last range also takes the remainder (see genTupleRanges)
+		bucket = df - 1
+	}
 	tuple := rangeTuple{from: rng.from + bucket*perRange, to: rng.from - 1 + (bucket+1)*perRange}
 	if bucket == df-1 {
 		tuple.to += align
